@@ -25,6 +25,9 @@ type Case struct {
 	Header    []prog.KV   `json:"header"`
 	Trailer   []prog.KV   `json:"trailer"`
 	ErrMeta   []prog.KV   `json:"err_meta"`
+	// HeaderLate: a handler that reads the request stream sets its response
+	// headers only after receiving (still before its first Send / its return)
+	HeaderLate bool `json:"header_late,omitempty"`
 }
 
 var keyNames = []string{"A", "B", "Trace-Id", "Long-Name-With-Dashes", "K9"}
@@ -77,6 +80,9 @@ func gen(transports []string) func(t *rapid.T) Case {
 		if strings.HasPrefix(c.Outcome, "err") {
 			c.ErrMeta = kvGen(t, "X-Res-", "meta")
 		}
+		if c.Cfg.Kind == prog.Client || c.Cfg.Kind == prog.Bidi {
+			c.HeaderLate = rapid.Bool().Draw(t, "headerLate")
+		}
 		return c
 	}
 }
@@ -121,6 +127,18 @@ func check(tt *testing.T, c Case) (pbt.Info, error) {
 	switch c.Outcome {
 	case "ok", "errK":
 		nmsg = 2
+	}
+	if c.HeaderLate && (c.Cfg.Kind == prog.Client || c.Cfg.Kind == prog.Bidi) {
+		info.Label("headers-set-after-receive")
+		hp.Header = nil
+		n := 1
+		if c.Cfg.Kind == prog.Client {
+			n = -1
+		}
+		hp.Steps = append(hp.Steps, prog.HStep{Op: "recv", N: n})
+		for i := range c.Header {
+			hp.Steps = append(hp.Steps, prog.HStep{Op: "header", KV: &c.Header[i]})
+		}
 	}
 	if c.Cfg.Kind == prog.Server || c.Cfg.Kind == prog.Bidi {
 		for i := 0; i < nmsg; i++ {
